@@ -33,6 +33,18 @@ pub const NAMES: [&str; 10] = [
 
 type RSnap<C> = (usize, RangeCoderState<<C as Cfg>::W, <C as Cfg>::S>);
 
+/// A user-written seekable word source: forwards reading, `pos` and `seek` to a cursor but keeps the DEFAULT
+/// `maybe_exhausted` of the trait ("maybe": always true), as any backend written outside the crate may.
+struct Plain<W>(Cursor<W, Vec<W>>);
+impl<W> constriction::PosSeek for Plain<W> { type Position = usize; }
+impl<W: Clone> ReadWords<W, Queue> for Plain<W> {
+    type ReadError = core::convert::Infallible;
+    fn read(&mut self) -> Result<Option<W>, Self::ReadError> { ReadWords::<W, Queue>::read(&mut self.0) }
+}
+impl<W> Seek for Plain<W> {
+    fn seek(&mut self, pos: usize) -> Result<(), ()> { self.0.seek(pos) }
+}
+
 /// all checks for one range decoder kind; `mk` builds a fresh decoder, `map` mirrors positions
 fn range_seek_checks<C: Cfg, B>(
     kind: &str,
@@ -128,6 +140,7 @@ pub fn range_check<C: Cfg>(enc: &RangeEncoder<C::W, C::S>, hist: &[Letter], snap
     range_seek_checks::<C, _>("Cursor<Vec> (owned)", &|| RangeDecoder::<C::W, C::S, _>::from_compressed(sealed.clone()).unwrap(), &id, &beyond, hist, snaps, &mut out, &mut a);
     range_seek_checks::<C, _>("Cursor<&[Word]> (borrowed)", &|| RangeDecoder::<C::W, C::S, _>::from_compressed(&sealed[..]).unwrap(), &id, &beyond, hist, snaps, &mut out, &mut a);
     range_seek_checks::<C, _>("into_decoder()", &|| enc.clone().into_decoder().unwrap(), &id, &beyond, hist, snaps, &mut out, &mut a);
+    range_seek_checks::<C, _>("user-written source with the default maybe_exhausted", &|| RangeDecoder::<C::W, C::S, _>::with_backend(Plain(Cursor::new_at_write_beginning(sealed.clone()))).unwrap(), &id, &beyond, hist, snaps, &mut out, &mut a);
     let mut rev = sealed.clone();
     rev.reverse();
     let mirror = |p: usize| len - p;
@@ -159,7 +172,7 @@ pub fn range_check<C: Cfg>(enc: &RangeEncoder<C::W, C::S>, hist: &[Letter], snap
         acc.c[2] += a[0];
         acc.c[3] += a[1];
         acc.c[4] += a[2];
-        acc.c[9] += 5;
+        acc.c[9] += 6;
     }
     out
 }
@@ -330,7 +343,7 @@ fn explore_ans<C: Cfg>(report: &Report, alphabet: &[Letter], depth: usize, label
 pub fn run(report: &Report) {
     use crate::models::*;
     let q = report.tier == Tier::Quick;
-    report.bound("every message of the walks up to the listed depth; snapshots at every symbol boundary; all ordered seek pairs (i,j) over the snapshot set with one decode in between; 5 decoder kinds per coder; 3-4 positions beyond the data");
+    report.bound("every message of the walks up to the listed depth; snapshots at every symbol boundary; all ordered seek pairs (i,j) over the snapshot set with one decode in between; 6 range decoder kinds (incl. a user-written source that keeps the trait's default maybe_exhausted) and 5 ANS kinds; 3-4 positions beyond the data");
     report.assume("a seek overwrites position, head state and (range decoder) the point window, so the decoder state after a seek does not depend on more than the previous state; pairs therefore cover longer seek sequences as long as this holds - and a seek that forgot to reset a field would be exposed by a pair");
     for n in ["range_snapshots_taken_while_inverted", "range_seek_to_final_position", "range_rejected_seeks", "ans_rejected_seeks", "ans_vec_backend_seeks_refused_because_truncated"] {
         report.require(n);
